@@ -13,12 +13,12 @@ def run(ctx):
     def k(ev):
         if ev['e'] == 'File':
             st['f'] = (ev['fmt'], ev['variant'], ev['file'])
-        return (st['f'], 'Truth') if ev['e'] == 'Truth' else None
+        return (st['f'], 'Truth') if ev['e'] == 'Truth' else ((st['f'], 'Region', ev['x'], ev['y'], ev['w'], ev['h']) if ev['e'] == 'Region' else None)
     ctx.scan(traces, k, trim=220)
-    ctx.own = {'X_DecodesAsEncoded', 'UnknownEvent'}
-    ctx.rule = 'one Truth event per encoded file (format x variant x shape); the other events of the file belong to C13'
+    ctx.own = {'X_DecodesAsEncoded', 'X_RegionOutsideRejected', 'X_RegionInsideAccepted', 'UnknownEvent'}
+    ctx.rule = 'one Truth event per encoded file (format x variant x shape) and one Region event per read region that does not lie inside the image (11 per file: sticking out on each side, starting outside, negative origin, full size at a non-zero origin, "whole image" dimensions at a non-zero origin); the other events of the file belong to C13'
     ctx.exhaustive = False
 
 def replay(ctx, path):
     ctx.validate('Trace_IoPaths', [path])
-    ctx.own = {'X_DecodesAsEncoded', 'UnknownEvent'}
+    ctx.own = {'X_DecodesAsEncoded', 'X_RegionOutsideRejected', 'X_RegionInsideAccepted', 'UnknownEvent'}
